@@ -80,7 +80,10 @@ def closing(img: NDArray[np.bool_], scale: nm, radius: nm) -> NDArray[np.bool_]:
     if radius < 0:
         out = ndi.binary_opening(img, structure=structure, border_value=False)
     elif radius > 0:
-        out = ndi.binary_closing(img, structure=structure, border_value=False)
+        # NOTE: pad the image so that the erosion step does not eat the objects that
+        # touch the image border (closing must be extensive).
+        out = ndi.binary_closing(np.pad(img, r), structure=structure, border_value=False)
+        out = out[(slice(r, -r),) * out.ndim]
     return out  # type: ignore
 
 
